@@ -1,15 +1,17 @@
 #!/bin/bash
-# For every fix: commit in /repo, reverse-apply it, run the check of the property it repairs, restore.
-# Expectation: every reverted fix is detected (exit 1 with a VIOLATION line).
-cd /repo || exit 2
-declare -A MAP=( [ade1d61]="C20 C14" [81aa2c4]="C13" [f10aca0]="C02 C01" [25f155d]="C01 C02" [8f70340]="C17" [f6b31c7]="C07" [1ceef1e]="C07" [264b238]="C08" [1e4a5d3]="C10 C11" [de62d31]="C05" [610e605]="C05" [2dc35f3]="C04" [e7ca3ce]="C16" )
+# For every fix: commit in /repo: reverse-apply it in the scratch worktree (/repo itself is never patched), run the check of the
+# property it repairs against that worktree (SCODA_REPO), restore.  Expectation: every reverted fix is detected (VIOLATION line).
+MUT=${MUTREPO:-/root/work/mutrepo}
+[ -d "$MUT" ] || git -C /repo worktree add -q --detach "$MUT" HEAD
+git -C "$MUT" checkout -q --detach "$(git -C /repo rev-parse HEAD)"
+git -C "$MUT" checkout -q -- .
+declare -A MAP=( [ade1d61]="C20 C14" [81aa2c4]="C13" [f10aca0]="C02 C01" [25f155d]="C01 C02" [8f70340]="C17" [f6b31c7]="C07" [1ceef1e]="C07" [264b238]="C08" [1e4a5d3]="C10 C11" [de62d31]="C05" [610e605]="C05" [2dc35f3]="C04" [e7ca3ce]="C16" [1462441]="C17" )
 for c in "${!MAP[@]}"; do
-  git diff $c~1 $c > /tmp/rev_$c.diff
-  git apply -R /tmp/rev_$c.diff || { echo "cannot revert $c"; continue; }
+  git -C /repo diff $c~1 $c | git -C "$MUT" apply -R || { echo "cannot revert $c"; git -C "$MUT" checkout -q -- .; continue; }
   for p in ${MAP[$c]}; do
-    out=$(cd /verif && ./check $p ${SELFTEST_ARGS:-} 2>&1 | grep -E "^VIOLATION" | head -1)
+    out=$(cd /verif && SCODA_REPO="$MUT" ./check $p ${SELFTEST_ARGS:-} 2>&1 | grep -E "^VIOLATION" | head -1)
     echo "$c $p -> ${out:-MISSED}"
   done
-  git checkout -- .
-  rm -f /tmp/rev_$c.diff
+  git -C "$MUT" checkout -q -- .
 done
+( cd /verif && /venv/bin/python tools/gen_lean.py > /dev/null 2>&1 )     # generated files back to /repo's source
